@@ -49,6 +49,10 @@ def plan(tier, seed):
     cfgs.append(dict(sched="RR", table=[[0, 1], [1, 1], [2, 1]], rate=8, flows=[0, 1, 2], sizes=[1000.1, 1000.2], N=n + 1, gaps=["S", 1000, 3000], order=0))
     cfgs.append(dict(sched="WRR", table=[[0, 2], [1, 1]], rate=8, flows=[0, 1], sizes=[1000.1, 1000.2], N=n + 1, gaps=["S", 1000, 3000], order=0))
     cfgs.append(dict(sched="DRR", table=[[0, 1], [1, 2]], rate=8000, flows=[0, 1], sizes=[1000.1, 2000.2], N=n, gaps="G3", order=0))
+    # weights below 1 (link shares) and a smallest weight that does not divide 1500 (quantum 2142.857...)
+    cfgs.append(dict(sched="DRR", table=[[0, 0.25], [1, 0.75]], rate=8000, flows=[0, 1], sizes=[1000, 2000], N=n + 1, gaps=["S", 1], order=0))
+    cfgs.append(dict(sched="DRR", table=[[0, 7], [1, 10]], rate=8000, flows=[0, 1], sizes=[857, 2000], N=n + 1, gaps=["S", 1], order=0))
+    cfgs.append(dict(sched="DRR", table=[[0, 7], [1, 10]], rate=8000, flows=[0, 1], sizes=[857], N=8 if quick else 10, gaps=["S"], order=0, static=True))
     for tab in ([[0, 1], [1, 1]], [[0, 2], [1, 1]], [[0, 1], [1, 3]], [[1, 2], [0, 1]]):
         cfgs.append(dict(sched="WRR", table=tab, rate=8, flows=[0, 1], sizes=[1, 2], N=n + 1, gaps="G5", order=0))
         cfgs.append(dict(sched="WRR", table=tab, rate=8, flows=[0, 1], sizes=[1], N=7 if quick else 9, gaps=["S", 1], order=1))
